@@ -4,7 +4,9 @@
 (* Terms are in "applied form" (what harness/drivers/c05.py projects real holpy terms to, structurally):      *)
 (*     node == << head, tys, args, n >>                                                                       *)
 (*   head : name of the constant at the head of the application spine, or "#bin" (a bit0/bit1 numeral of type *)
-(*          nat with value n), "#var" (tys = <<type, name>>), "#other"/"#big"/"#none" (outside the fragment)  *)
+(*          nat with value n < 2^31), "#bign" (such a numeral >= 2^31: args are its base-10^4 limbs, least    *)
+(*          significant first, each as a node <<"#l", <<>>, <<>>, limb>>), "#var" (tys = <<type, name>>),     *)
+(*          "#other"/"#none" (outside the fragment)                                                           *)
 (*   tys  : the constant's type, flattened:  plus :: nat => nat => nat   is  <<"nat","nat","nat">>            *)
 (*   args : the arguments (nodes);   n : only meaningful for "#bin"                                           *)
 (* Numerals are exactly as in kernel/term.py: zero / one at each type, of_nat applied to a binary numeral,    *)
@@ -18,9 +20,14 @@
 (*         integer y is the integer power, 0 ^ y = 0 for y # 0 (rpow_zero), x ^ -y = real_inverse (x ^ y)     *)
 (*   of_nat / of_int : the embeddings;  abs n = (if 0 <= n then n else -n)                                     *)
 (* A constant at a type where the library gives it no meaning (uminus / real_divide at nat, ...), anything    *)
-(* ill-typed, irrational (sqrt of a non-square, exp, log, sin, pi, non-integer exponents), or beyond          *)
-(* Rat.RatLim evaluates to NA: such statements are NOT EXAMINED (never judged).                                *)
-EXTENDS Integers, Sequences, FiniteSets, Rat
+(* ill-typed or irrational (sqrt of a non-square, exp, log, sin, pi, non-integer exponents) evaluates to NA:  *)
+(* such statements are NOT EXAMINED (never judged).                                                           *)
+(* Magnitudes: Val works with TLC's native integers and gives NA beyond Rat.RatLim = 2^30 - 1.  A CLOSED      *)
+(* statement that Val cannot decide is evaluated again by BVal, the same meaning over arbitrary-precision     *)
+(* integers (lib/BigInt.tla: limb arithmetic, unnormalised rationals compared by cross-multiplication; no     *)
+(* division, so DIV / MOD / sqrt / integer-valued-but-unreduced exponents stay NA there).  BVal is only a     *)
+(* fallback: wherever Val decides, its verdict stands (C05_Arith checks that the two agree on the universe).  *)
+EXTENDS Integers, Sequences, FiniteSets, Rat, BigInt
 
 NumT == {"nat", "int", "real"}
 NA == <<"na", 0, 1>>
@@ -112,6 +119,88 @@ Val(e, env) ==
     [] h = "implies" -> IF bin("bool") THEN BoolV(a1[2] = 0 \/ a2[2] = 1) ELSE NA
     [] OTHER -> NA
 
+\* ---------------------------------------------------------------- the same meaning over big integers (closed terms only)
+NAb == <<"na", BZero, BOne>>
+QB(v) == <<v[2], v[3]>>
+BMkV(T, r) == IF T = "nat" /\ (r[2] # BOne \/ r[1][1] < 0) THEN NAb
+              ELSE IF T = "int" /\ r[2] # BOne THEN NAb
+              ELSE <<T, r[1], r[2]>>
+BBoolV(b) == <<"bool", IF b THEN BOne ELSE BZero, BOne>>
+QOne == QInt(BOne)
+BNatMinus(x, y) == IF QCmp(x, y) <= 0 THEN QZero ELSE QSub(x, y)
+\* x ^ n for a native 0 <= n; NA-marker <<BZero, BZero>> (denominator 0) when the result would be unreasonably long
+QPowBig == <<BZero, BZero>>
+QPowG(x, n) == IF n = 0 THEN QOne
+               ELSE IF n > BPowMax \/ n * (Len(x[1][2]) + Len(x[2][2])) > 400 THEN QPowBig ELSE QPowRec(x, n)
+BMkP(T, r) == IF r = QPowBig THEN NAb ELSE BMkV(T, r)
+LimbsOf(as) == [i \in 1..Len(as) |-> as[i][4]]
+RECURSIVE BVal(_)
+BVal(e) ==
+  LET h == e[1]  ts == e[2]  as == e[3]  k == Len(e[3])  nt == Len(e[2])
+      a1 == IF k >= 1 THEN BVal(as[1]) ELSE NAb
+      a2 == IF k >= 2 THEN BVal(as[2]) ELSE NAb
+      T == IF nt >= 1 THEN ts[1] ELSE ""
+      un(S, R) == k = 1 /\ ts = <<S, R>> /\ a1[1] = S
+      bin(S) == k = 2 /\ ts = <<S, S, S>> /\ a1[1] = S /\ a2[1] = S
+      rel(S) == k = 2 /\ ts = <<S, S, "bool">> /\ a1[1] = S /\ a2[1] = S
+      small(v) == BSmall(v[2]) /\ v[3] = BOne
+  IN
+  CASE h = "#bin" -> IF k = 0 /\ ts = <<"nat">> /\ e[4] >= 0 THEN <<"nat", BFromInt(e[4]), BOne>> ELSE NAb
+    [] h = "#bign" -> IF k >= 1 /\ ts = <<"nat">> /\ (\A i \in 1..k : as[i][1] = "#l" /\ Len(as[i][3]) = 0) /\ BLimbsOk(LimbsOf(as))
+                      THEN <<"nat", BFromLimbs(LimbsOf(as)), BOne>> ELSE NAb
+    [] h = "zero" -> IF k = 0 /\ nt = 1 /\ T \in NumT THEN <<T, BZero, BOne>> ELSE NAb
+    [] h = "one" -> IF k = 0 /\ nt = 1 /\ T \in NumT THEN <<T, BOne, BOne>> ELSE NAb
+    [] h = "true" -> IF k = 0 /\ ts = <<"bool">> THEN BBoolV(TRUE) ELSE NAb
+    [] h = "false" -> IF k = 0 /\ ts = <<"bool">> THEN BBoolV(FALSE) ELSE NAb
+    [] h = "plus" -> IF T \in NumT /\ bin(T) THEN BMkV(T, QAdd(QB(a1), QB(a2))) ELSE NAb
+    [] h = "times" -> IF T \in NumT /\ bin(T) THEN BMkV(T, QMul(QB(a1), QB(a2))) ELSE NAb
+    [] h = "minus" -> IF T \in NumT /\ bin(T)
+                      THEN (IF T = "nat" THEN BMkV(T, BNatMinus(QB(a1), QB(a2))) ELSE BMkV(T, QSub(QB(a1), QB(a2)))) ELSE NAb
+    [] h = "uminus" -> IF T \in {"int", "real"} /\ un(T, T) THEN BMkV(T, QNeg(QB(a1))) ELSE NAb
+    [] h = "abs" -> IF T \in NumT /\ un(T, T) THEN BMkV(T, QAbs(QB(a1))) ELSE NAb
+    [] h = "Suc" -> IF un("nat", "nat") THEN BMkV("nat", QAdd(QB(a1), QOne)) ELSE NAb
+    [] h = "Pre" -> IF un("nat", "nat") THEN BMkV("nat", BNatMinus(QB(a1), QOne)) ELSE NAb
+    [] h = "bit0" -> IF un("nat", "nat") THEN BMkV("nat", QAdd(QB(a1), QB(a1))) ELSE NAb
+    [] h = "bit1" -> IF un("nat", "nat") THEN BMkV("nat", QAdd(QAdd(QB(a1), QB(a1)), QOne)) ELSE NAb
+    [] h = "of_nat" -> IF nt = 2 /\ ts[2] \in NumT /\ un("nat", ts[2]) THEN BMkV(ts[2], QB(a1)) ELSE NAb
+    [] h = "of_int" -> IF un("int", "real") THEN BMkV("real", QB(a1)) ELSE NAb
+    [] h = "real_divide" -> IF bin("real") THEN BMkV("real", QDiv(QB(a1), QB(a2))) ELSE NAb
+    [] h = "real_inverse" -> IF un("real", "real") THEN BMkV("real", QInv(QB(a1))) ELSE NAb
+    [] h = "nat_divide" -> IF bin("nat") /\ small(a1) /\ small(a2)
+                           THEN (IF a2[2] = BZero THEN <<"nat", BZero, BOne>> ELSE <<"nat", BFromInt(BToInt(a1[2]) \div BToInt(a2[2])), BOne>>) ELSE NAb
+    [] h = "nat_modulus" -> IF bin("nat") /\ small(a1) /\ small(a2)
+                            THEN (IF a2[2] = BZero THEN a1 ELSE <<"nat", BFromInt(BToInt(a1[2]) % BToInt(a2[2])), BOne>>) ELSE NAb
+    [] h = "power" ->
+         IF k = 2 /\ nt = 3 /\ T \in NumT /\ ts[3] = T /\ a1[1] = T /\ a2[1] = ts[2]
+         THEN (IF ts[2] = "nat" THEN (IF small(a2) THEN BMkP(T, QPowG(QB(a1), BToInt(a2[2]))) ELSE NAb)
+               ELSE IF ts[2] = "real" /\ T = "real"
+               THEN (IF QSgn(QB(a2)) = 0 THEN <<T, BOne, BOne>>                       \* rpow_0
+                     ELSE IF small(a2)
+                     THEN (IF a2[2][1] > 0 THEN BMkP(T, QPowG(QB(a1), BToInt(a2[2])))
+                           ELSE LET r == QPowG(QB(a1), -BToInt(a2[2])) IN IF r = QPowBig THEN NAb ELSE BMkV(T, QInv(r)))
+                     ELSE IF QSgn(QB(a1)) = 0 THEN <<T, BZero, BOne>>                 \* rpow_zero, exponent # 0
+                     ELSE IF QCmp(QB(a1), QOne) = 0 THEN <<T, BOne, BOne>>            \* rpow_one
+                     ELSE NAb)
+               ELSE NAb)
+         ELSE NAb
+    [] h \in {"less", "less_eq", "greater", "greater_eq"} ->
+         IF T \in NumT /\ rel(T)
+         THEN LET c == QCmp(QB(a1), QB(a2)) IN
+              BBoolV(CASE h = "less" -> c = -1 [] h = "less_eq" -> c # 1 [] h = "greater" -> c = 1 [] OTHER -> c # -1)
+         ELSE NAb
+    [] h = "equals" -> IF T \in NumT /\ rel(T) THEN BBoolV(QCmp(QB(a1), QB(a2)) = 0)
+                       ELSE IF T = "bool" /\ rel(T) THEN BBoolV(a1[2] = a2[2]) ELSE NAb
+    [] h = "neg" -> IF un("bool", "bool") THEN BBoolV(a1[2] = BZero) ELSE NAb
+    [] h = "conj" -> IF bin("bool") THEN BBoolV(a1[2] = BOne /\ a2[2] = BOne) ELSE NAb
+    [] h = "disj" -> IF bin("bool") THEN BBoolV(a1[2] = BOne \/ a2[2] = BOne) ELSE NAb
+    [] h = "implies" -> IF bin("bool") THEN BBoolV(a1[2] = BZero \/ a2[2] = BOne) ELSE NAb
+    [] OTHER -> NAb
+BSeqTruth(hs, c) == LET hv == [i \in 1..Len(hs) |-> BVal(hs[i])]  cv == BVal(c) IN
+                    IF \E i \in 1..Len(hs) : hv[i][1] # "bool" THEN "NA"
+                    ELSE IF \E i \in 1..Len(hs) : hv[i][2] = BZero THEN "T"
+                    ELSE IF cv[1] # "bool" THEN "NA" ELSE IF cv[2] = BOne THEN "T" ELSE "F"
+BTruth(g) == BSeqTruth(<<>>, g)
+
 \* ---------------------------------------------------------------- free variables and the grid
 RECURSIVE VarsOf(_)
 VarsOf(e) == IF e[1] = "#var" THEN {e[2]} ELSE UNION { VarsOf(e[3][i]) : i \in 1..Len(e[3]) }
@@ -133,10 +222,14 @@ SeqAt(hs, c, env) == LET hv == [i \in 1..Len(hs) |-> Val(hs[i], env)]  cv == Val
                      IF \E i \in 1..Len(hs) : hv[i][1] # "bool" THEN "NA"
                      ELSE IF \E i \in 1..Len(hs) : hv[i][2] = 0 THEN "T"
                      ELSE IF cv[1] # "bool" THEN "NA" ELSE IF cv[2] = 1 THEN "T" ELSE "F"
-SeqTruth(hs, c) == LET vs == VarsOf(c) \cup UNION { VarsOf(hs[i]) : i \in 1..Len(hs) } IN
-                   IF ~VarsOK(vs) THEN "NA"
-                   ELSE LET rs == { SeqAt(hs, c, env) : env \in Envs(vs) } IN
-                        IF "F" \in rs THEN "F" ELSE IF rs = {"T"} THEN "T" ELSE "NA"
+SeqTruthS(hs, c) == LET vs == VarsOf(c) \cup UNION { VarsOf(hs[i]) : i \in 1..Len(hs) } IN
+                    IF ~VarsOK(vs) THEN "NA"
+                    ELSE LET rs == { SeqAt(hs, c, env) : env \in Envs(vs) } IN
+                         IF "F" \in rs THEN "F" ELSE IF rs = {"T"} THEN "T" ELSE "NA"
+\* the verdict of the native evaluation stands; only a closed sequent it cannot decide is evaluated over big integers
+SeqTruth(hs, c) == LET s == SeqTruthS(hs, c) IN
+                   IF s # "NA" THEN s
+                   ELSE IF VarsOf(c) = {} /\ (\A i \in 1..Len(hs) : VarsOf(hs[i]) = {}) THEN BSeqTruth(hs, c) ELSE "NA"
 Truth(g) == SeqTruth(<<>>, g)
 Closed(g) == VarsOf(g) = {}
 NoEnv == [x \in {} |-> <<0, 1>>]
